@@ -9,9 +9,9 @@ cmp -s /tmp/confirm-$id.diff $out/patch.diff || echo "note: worktree diff differ
 t=$(cargo test --offline 2>&1 | grep -E "^test result" | awk '{p+=$4; f+=$6} END {print p" passed "f" failed"}')
 echo "tests with change: $t"
 cargo build --offline 2>&1 | tail -1
-sh $out/demo.sh $wt/target/debug/tuc >/dev/null 2>&1; with=$?
+bash $out/demo.sh $wt/target/debug/tuc >/dev/null 2>&1; with=$?
 base=$(cd /verif/harness && env -u CARGO_TARGET_DIR python3 -c 'from common import *; print(build_tuc())')
-sh $out/demo.sh $base >/dev/null 2>&1; without=$?
+bash $out/demo.sh $base >/dev/null 2>&1; without=$?
 echo "demo with change: exit $with ; without: exit $without"
 case "$t" in *" 0 failed") ;; *) echo "REJECT: tests fail"; exit 1;; esac
 [ "$with" = 1 ] && [ "$without" = 0 ] || { echo "REJECT: demo does not discriminate"; exit 1; }
